@@ -147,11 +147,28 @@ def run(ctx: Ctx):
         body = txt[txt.rfind('")"') + 3:].strip()
         okb = all(x in body for x in ("assignment", "comment", "NEWLINE")) and body.endswith(")+")
         ctx.check(okb, "R17.b", f"src/gotranx/ode.lark::expressions::{txt.split()[0]}::block-items", f"block items: {body}", f"inside a `{txt.split()[0].strip(chr(34))}(...)` block only `{body}` is accepted: a comment line or a blank line between two assignments ends the block and the remaining assignments silently move to the unnamed component (or the model no longer loads)", "src/gotranx/ode.lark")
+    from sa import av as _avt
+
+    from . import util as _ut
+
     tex = sm.func("transformer.py", "TreeToODE.expressions")
-    ok = any(isinstance(n, ast.If) and "isinstance(si, atoms.Comment)" in norm(n.test) for n in ast.walk(tex.node))
-    to = sm.func("transformer.py", "TreeToODE.ode")
-    ok2 = any(isinstance(n, ast.If) and norm(n.test) == "isinstance(atom, atoms.Comment)" and any(isinstance(s, ast.Continue) for s in n.body) for n in ast.walk(to.node))
-    ctx.check(ok and ok2, "R17.b", tex.key("comments-in-block"), "comments inside a block are passed on, not treated as atoms", "the transformer does not handle Comment items inside an expressions block (they would be treated as atoms)", tex.where())
+    tv = _ut.value_of(ctx, tex)
+    key = tex.key("comments-in-block")
+    inner = _avt._unwrap_seq(tv)
+    while inner[0] == "call" and inner[1] in ("tuple", "list") and len(inner[2]) == 1:
+        inner = _avt._unwrap_seq(inner[2][0])
+    if _avt.has_unk(tv) or inner[0] != "comp":
+        ctx.undecided("R17.b", key, "what TreeToODE.expressions returns is not understood", tex.where())
+    else:
+        bv = ("bv", inner[1])
+        isc = ("call", "isinstance", (bv, ("sym", "atoms.Comment")), ())
+        passed = any(it[0] == "when" and it[1] == isc and it[2] == bv for it in inner[3]) or (isc in inner[4] and bv in inner[3])
+        parsed = [it for it in inner[3] if "find_assignments" in _avt.show(it)]
+        guarded = all(it[0] == "when" and it[1] == ("not", isc) for it in parsed)
+        ok = passed and bool(parsed) and guarded
+        to = _ut.nf(ctx, "transformer.py", "TreeToODE.ode")
+        ok2 = any(isinstance(n, ast.If) and re.fullmatch(r"isinstance\(\w+, atoms\.Comment\)", norm(n.test)) and any(isinstance(s_, ast.Continue) for s_ in n.body) for n in ast.walk(to.node))
+        ctx.check(ok and ok2, "R17.b", key, "comments inside a block are passed on, not treated as atoms", f"the transformer does not pass Comment items of an expressions block on unchanged ({_avt.show(tv)[:120]}): they would be treated as assignments", tex.where())
     asg = G.shape("assignment")
     ctx.check(asg.replace(" ", "") == '?assignment:VARIABLE"="expression[comment][NEWLINE]', "R17.b", "src/gotranx/ode.lark::assignment", asg, f"assignment rule is `{asg}`", "src/gotranx/ode.lark")
 
